@@ -1,4 +1,6 @@
 import RxProofs.Lemmas.SubjReplayLive
+import RxProofs.Lemmas.SubjReplayNat
+import RxProofs.Lemmas.SubjReplaySpec
 /-!
 # C22 — a ReplaySubject replays exactly its retained values, in order
 
@@ -25,7 +27,7 @@ items all of whose ages (at the last `now` the subject read) are within the wind
 any later instant `now` (what `subscribe` does) again yields exactly the part retained at `now`.
 Values dropped once never come back, because the clock (`allVals` is time-sorted, `lastNow ≤ clock`) only
 moves forward.  Age exactly equal to the window is *retained* (the code drops on `>`; `Good` is `≤`). -/
-theorem replay_retained_spec {cfg : Cfg} {calls : List (Nat × Call α)} {st : St α} (h : Reach cfg calls st)
+theorem replay_retained_spec {cfg : Cfg α} {calls : List (Nat × Call α)} {st : St α} (h : Reach cfg calls st)
     (hd : st.disposed = false) :
     Sorted st.allVals ∧ st.lastNow ≤ st.clock ∧
     IsRetained cfg st.lastNow st.allVals st.queue ∧
@@ -34,7 +36,7 @@ theorem replay_retained_spec {cfg : Cfg} {calls : List (Nat × Call α)} {st : S
   exact ⟨hI.sorted, hI.lastNow_le, hI.retained hd, fun now hn => trim_of_retained hI.sorted (hI.retained hd) hn⟩
 
 /-- `IsRetained` pins the list down: there is only one. -/
-theorem retained_unique {cfg : Cfg} {now : Nat} {all r1 r2 : List (Nat × α)}
+theorem retained_unique {cfg : Cfg α} {now : Nat} {all r1 r2 : List (Nat × α)}
     (h1 : IsRetained cfg now all r1) (h2 : IsRetained cfg now all r2) : r1 = r2 :=
   h1.unique h2
 
@@ -42,7 +44,7 @@ theorem retained_unique {cfg : Cfg} {now : Nat} {all r1 r2 : List (Nat × α)}
 (subscribing at top level or from inside a callback, at virtual time `clock`) is queued — in order — the
 values retained at `clock`, followed by the terminal notification if the subject has terminated; it is
 appended to the observers; and no user code runs inside `subscribe`. -/
-theorem replay_prefix {cfg : Cfg} {calls : List (Nat × Call α)} {st : St α} (h : Reach cfg calls st)
+theorem replay_prefix {cfg : Cfg α} {calls : List (Nat × Call α)} {st : St α} (h : Reach cfg calls st)
     (who : Option Id) (j : Id) (hj : st.seen j = false) (hd : st.disposed = false) :
     IsRetained cfg st.clock st.allVals (trim cfg st.clock st.queue) ∧
     (doSub cfg st who j).1.enq j =
@@ -55,22 +57,24 @@ theorem replay_prefix {cfg : Cfg} {calls : List (Nat × Call α)} {st : St α} (
   exact ⟨trim_of_retained hI.sorted (hI.retained hd) hI.lastNow_le, hs.1, hs.2.1, hs.2.2,
     fun k hk => doSub_enq_other cfg st who j k hk⟩
 
-/-- **replay_prefix_then_live** (2: live notifications).  A notification accepted by the subject is queued
-exactly once for exactly the current observers, and for nobody else; nothing else ever queues anything
-(`run` actions, unsubscriptions, disposals, the scheduler's own bookkeeping). -/
-theorem replay_live {cfg : Cfg} {calls : List (Nat × Call α)} {st : St α} (h : Reach cfg calls st) :
-    (∀ n, st.disposed = false → st.stopped = false →
-      ∀ k, (emit cfg st n).enq k = if k ∈ st.observers then st.enq k ++ [n] else st.enq k) ∧
+/-- **replay_prefix_then_live** (2: live notifications).  A notification accepted by the subject — from a
+history call (`who = none`) or re-entrantly from inside a subscriber's own callback (`who = some i`, a
+feedback loop) — is queued exactly once for exactly the current observers, and for nobody else; nothing else
+ever queues anything (`run` actions, unsubscriptions, disposals, the scheduler's own bookkeeping). -/
+theorem replay_live {cfg : Cfg α} {calls : List (Nat × Call α)} {st : St α} (h : Reach cfg calls st) :
+    (∀ who n, st.disposed = false → st.stopped = false →
+      ∀ k, (emit cfg st who n).enq k = if k ∈ st.observers then st.enq k ++ [n] else st.enq k) ∧
     (∀ i, (soRun cfg st i).enq = st.enq) ∧
-    (∀ t, (∀ who j, t ≠ Task.act who (.sub j)) → (doTask cfg st t).enq = st.enq) :=
-  ⟨fun n hd hs k => emit_enq cfg (reach_inv h) n hd hs k, fun i => soRun_enq cfg st i,
-   fun t ht => doTask_enq cfg st t ht⟩
+    (∀ t, (∀ who j, t ≠ Task.act who (.base (.sub j))) → (∀ who n, t ≠ Task.act who (.emit n)) →
+      (doTask cfg st t).enq = st.enq) :=
+  ⟨fun who n hd hs k => emit_enq cfg (reach_inv h) who n hd hs k, fun i => soRun_enq cfg st i,
+   fun t ht he => doTask_enq cfg st t ht he⟩
 
 /-- **replay_prefix_then_live** (3: nothing duplicated or reordered on the way to the user).
 The ScheduledObserver is a FIFO: what has been handed to the AutoDetachObserver, followed by what is
 still queued, is what was queued (unless the observer's own callback raised); the user has seen exactly
 what was handed over as long as the observer is live, and a prefix of it afterwards. -/
-theorem replay_fifo {cfg : Cfg} {calls : List (Nat × Call α)} {st : St α} (h : Reach cfg calls st) (i : Id) :
+theorem replay_fifo {cfg : Cfg α} {calls : List (Nat × Call α)} {st : St α} (h : Reach cfg calls st) (i : Id) :
     (st.faulted i = false → st.fed i ++ st.soQueue i = st.enq i) ∧
     (st.adoStopped i = false → notifs (st.log i) = st.fed i) ∧
     notifs (st.log i) <+: st.fed i :=
@@ -79,34 +83,87 @@ theorem replay_fifo {cfg : Cfg} {calls : List (Nat × Call α)} {st : St α} (h 
 /-- **replay_prefix_then_live** (4: everything arrives).  When `start()` has returned normally, every
 observer whose ScheduledObserver was not disposed has been handed everything queued for it; if it is
 still live its user has seen exactly that sequence: retained values, terminal-if-any, later notifications. -/
-theorem replay_all_delivered {cfg : Cfg} {calls : List (Nat × Call α)} {st : St α} (h : Reach cfg calls st)
+theorem replay_all_delivered {cfg : Cfg α} {calls : List (Nat × Call α)} {st : St α} (h : Reach cfg calls st)
     (hidle : st.agenda = [] ∧ st.pending = []) (hc : st.crashed = none) (i : Id) (hd : st.serDisposed i = false) :
     st.soQueue i = [] ∧ st.fed i = st.enq i ∧ (st.adoStopped i = false → notifs (st.log i) = st.enq i) := by
   have hq := quiescent_drained h hidle hc i hd
   exact ⟨hq.1, hq.2, fun ha => by rw [← hq.2]; exact (reach_uinv h).all i ha⟩
 
+/-- **replay_prefix_then_live** (one formula).  `specOf cfg st.evs` is computed from the *observable* event
+order alone (the history calls with their contents and times, re-entrant emissions, subscription attempts,
+unsubscriptions, disposals — the very list the correspondence check compares with the real code), by the
+property text: `exp i` = at `i`'s subscription the values retained at that instant (`trim` of everything
+accepted so far) ++ the terminal if the subject has terminated ++ every notification accepted afterwards
+while `i` stays subscribed (cut at its unsubscription / at termination / at `dispose`).
+In every reachable state: what was queued for `i` is exactly `exp i`; what `i`'s user has seen is a prefix of
+it, in order, nothing twice; and when `start()` has returned normally a live, never-unsubscribed observer
+has seen exactly `exp i`. -/
+theorem replay_one_formula {cfg : Cfg α} {calls : List (Nat × Call α)} {st : St α} (h : Reach cfg calls st) (i : Id) :
+    st.enq i = (specOf cfg st.evs).exp i ∧
+    (st.faulted i = false → notifs (st.log i) <+: (specOf cfg st.evs).exp i) ∧
+    (st.agenda = [] ∧ st.pending = [] → st.crashed = none → st.serDisposed i = false → st.adoStopped i = false →
+      notifs (st.log i) = (specOf cfg st.evs).exp i) := by
+  have hS := reach_specinv h
+  have hI := reach_inv h
+  have hU := reach_uinv h
+  refine ⟨hS.e i, ?_, ?_⟩
+  · intro hf
+    rw [← hS.e i, ← hI.fifo i hf]
+    exact (hU.pre i).trans (List.prefix_append _ _)
+  · intro hidle hc hd ha
+    rw [← hS.e i]
+    exact (replay_all_delivered h hidle hc i hd).2.2 ha
+
+/-- The specification's reading of a subscription, spelled out: on an undisposed subject the expected
+sequence of a new subscriber starts with `trim` (= the retained part, `replay_retained_spec`) of all values
+accepted so far, then the accepted terminal if any; it is subscribed for later notifications iff the subject
+has not terminated. -/
+theorem spec_subscription (cfg : Cfg α) (s : Spec α) (j now : Nat) (hd : s.disp = false) :
+    (Spec.step cfg s (.sub j now)).exp j =
+      (trim cfg now s.vals).map (fun it => Notif.next it.2) ++ s.term.toList ∧
+    (Spec.step cfg s (.sub j now)).subs = if s.term.isNone then s.subs ++ [j] else s.subs := by
+  simp [Spec.step, hd]
+
+/-- …and of an emission: an accepted notification is appended to the expected sequence of exactly the
+currently subscribed observers. -/
+theorem spec_emission (s : Spec α) (now : Nat) (n : Notif α) (hd : s.disp = false) (ht : s.term = none) (i : Id) :
+    (s.emit now n).exp i = if i ∈ s.subs then s.exp i ++ [n] else s.exp i := by
+  cases n <;> simp [Spec.emit, hd, ht]
+
 /-- **replay_dispose_stops.**  Once an observer's subscription has been disposed (or it was handed a
 terminal) its user sees nothing more — not even replayed values still queued in its ScheduledObserver —
 whatever the rest of the run does; and a disposed subject raises `DisposedException` on emission. -/
-theorem replay_dispose_stops {cfg : Cfg} {calls : List (Nat × Call α)} {st : St α} (h : Reach cfg calls st) :
+theorem replay_dispose_stops {cfg : Cfg α} {calls : List (Nat × Call α)} {st : St α} (h : Reach cfg calls st) :
     (∀ j, st.handle j = true → (doUnsub st j).adoStopped j = true) ∧
     (∀ i, st.adoStopped i = true → ∀ f, (steps cfg f st).log i = st.log i ∧ (steps cfg f st).adoStopped i = true) ∧
-    (st.disposed = true → ∀ n, emit cfg st n = SubjReplay.raiseTo none Subj.disposedExn st) := by
-  refine ⟨?_, fun i hs f => reach_silent h i hs f, fun hd n => by simp [emit, hd]⟩
+    (st.disposed = true → ∀ who n, emit cfg st who n = SubjReplay.raiseTo who Subj.disposedExn st) := by
+  refine ⟨?_, fun i hs f => reach_silent h i hs f, fun hd who n => by simp [emit, hd]⟩
   intro j hj
   have f := sadDispose_uframe { st with adoStopped := Subj.upd st.adoStopped j true, evs := st.evs ++ [EvR.unsub j] } j
   simp only [doUnsub, hj, if_true]
   rw [f.2.2]
   simp
 
+/-- **replay_natural** (C08 for ReplaySubject: no value is special).  Renaming every value of a timed
+history — and of the re-entrant emissions in the reaction scripts — with an arbitrary function `g` renames the
+(timed) notifications every observer sees and the retained queue, and changes nothing else: same times, same
+exceptions per call, same caught exceptions, same crash status.  `_trim` looks at times and counts only. -/
+theorem replay_natural {β : Type} (cfg : Cfg α) (g : α → β) (fuel : Nat) (calls : List (Nat × Call α)) (i : Id) :
+    (run (cfg.map g) fuel (calls.map (tc g))).log i = ((run cfg fuel calls).log i).map (tn g) ∧
+    (run (cfg.map g) fuel (calls.map (tc g))).raised = (run cfg fuel calls).raised ∧
+    (run (cfg.map g) fuel (calls.map (tc g))).xlog = (run cfg fuel calls).xlog ∧
+    (run (cfg.map g) fuel (calls.map (tc g))).crashed = (run cfg fuel calls).crashed ∧
+    (run (cfg.map g) fuel (calls.map (tc g))).queue = (run cfg fuel calls).queue.map (tv g) :=
+  run_natural_log cfg g fuel calls i
+
 /-- What the correspondence check executes (`SubjReplay.run`, any fuel, any history) is reachable. -/
-theorem run_reachable (cfg : Cfg) (fuel : Nat) (calls : List (Nat × Call α)) : Reach cfg calls (run cfg fuel calls) :=
+theorem run_reachable (cfg : Cfg α) (fuel : Nat) (calls : List (Nat × Call α)) : Reach cfg calls (run cfg fuel calls) :=
   run_reach cfg fuel calls
 
 /-! ### Non-vacuity: buffer 2, window 10.  Values at t=1,2,3 (the falsy `0` among them); observer 0
 subscribes at t=12: only the last two are candidates and `(2, _)` has age exactly 10 = window: retained;
 observer 1 subscribes at t=13: age 11 > 10: dropped, only `(3, _)` is replayed, then completion. -/
-def exCfg : Cfg := { bufferSize := some 2, window := some 10, hasErr := fun _ => true, react := fun _ _ => [] }
+def exCfg : Cfg Nat := { bufferSize := some 2, window := some 10, hasErr := fun _ => true, react := fun _ _ => [] }
 
 def exRun := run exCfg 200 [(1, Call.next 5), (2, .next 0), (3, .next 7), (12, .sub 0), (12, .completed), (13, .sub 1), (14, .next 9)]
 
@@ -123,5 +180,21 @@ example : (run { exCfg with bufferSize := none, window := none } 200 [(1, Call.n
     = [] := by decide
 example : (run { exCfg with bufferSize := none, window := none } 200 [(1, Call.next 5), (1, .next 6), (2, .sub 0), (2, .unsub 0)]).enq 0
     = [.next 5, .next 6] := by decide
+
+/-- Feedback (re-entrant emission): observer 0 answers the value `1` by pushing `2` into the subject from
+inside its callback — while it is processing the last item queued for it — and answers `2` by completing
+the subject.  Everybody (the producer itself, the passive observer 1, the late observer 2) sees all of it. -/
+def fbCfg : Cfg Nat :=
+  { bufferSize := none, window := none, hasErr := fun _ => true
+    react := fun i k => if i = 0 ∧ k = 0 then [.emit (.next 2)] else if i = 0 ∧ k = 1 then [.emit .completed] else [] }
+
+def fbRun := run fbCfg 200 [(210, Call.sub 0), (215, .sub 1), (220, .next 1), (300, .sub 2)]
+
+example : fbRun.log 0 = [(220, .next 1), (220, .next 2), (220, .completed)] := by decide
+example : fbRun.log 1 = [(220, .next 1), (220, .next 2), (220, .completed)] := by decide
+example : fbRun.log 2 = [(300, .next 1), (300, .next 2), (300, .completed)] := by decide
+/-- the one-formula specification evaluated on the observable event order of these runs -/
+example : (specOf fbCfg fbRun.evs).exp 1 = [.next 1, .next 2, .completed] := by decide
+example : (specOf exCfg exRun.evs).exp 0 = [.next 0, .next 7, .completed] ∧ (specOf exCfg exRun.evs).exp 1 = [.next 7, .completed] := by decide
 
 end C22
